@@ -34,7 +34,10 @@ EXPLANATION = (
     'R7 in every method of the BuildTarget family, after a write of the field get_filename() returns (or an overwrite of get_outputs()[0]) every path '
     're-assigns outputs[0] from filename before returning (classes for which generate_target writes no link statement are exempt). '
     'R8 every character that write() puts between the quoted paths of a build line is escaped by the pattern ninja_quote uses for build lines or rejected by it. '
-    'Not decided (declared limits): equality of output paths modulo normalisation (`x/o` vs `./x/o`: the registry compares the strings it is given); files the backend '
+    'R9 in the functions that feed test prerequisites and dependency paths no isinstance arm for a subclass is shadowed by an earlier base-class arm that leaves; '
+    'R10 a pool named by a rule (`pool = X`) is declared (`pool X`) under a threshold condition on the same quantity that the naming condition implies. '
+    'Not decided (declared limits): agreement between the condition under which a precompiled header is listed as a dependency and the condition under which its '
+    'statement is generated (needs relating computed file names across functions);  equality of output paths modulo normalisation (`x/o` vs `./x/o`: the registry compares the strings it is given); files the backend '
     'creates itself at configure time (library alias symlinks) against statement outputs; arithmetic agreement of the unity-file count in _determine_ext_objs with the '
     'chunking loop of generate_unity_files; path identity tests in the legacy Fortran scanner (samefile vs ==). '
     'Does NOT decide acyclicity, existence of inputs, reachability from `all` of a concrete project, whether the guard under which a '
@@ -2451,6 +2454,139 @@ def r9(ctx: RuleCtx) -> None:
 
 
 
+# ----------------------------------------------------------------------------
+# R10  pool closure: a pool named by a rule is declared, under a condition that the naming condition implies (K5/K8)
+# ----------------------------------------------------------------------------
+def _threshold(info: L.FnInfo, n: Node) -> T.Optional[T.Tuple[str, int, bool]]:
+    """test node `E > k` / `E >= k` / `E` (truthiness) / negations on an int quantity -> (normalised E, smallest value of E for which the
+    true edge is taken, edge polarity).  None when the test is not of that form."""
+    return _threshold_expr(info, n.ast.test, n)  # type: ignore[union-attr]
+
+
+def _threshold_expr(info: L.FnInfo, test: ast.AST, n: Node) -> T.Optional[T.Tuple[str, int, bool]]:
+    e = L.inline_locals(info, test, n)
+    pol = True
+    while isinstance(e, ast.UnaryOp) and isinstance(e.op, ast.Not):
+        pol = not pol
+        e = e.operand
+    if isinstance(e, ast.Compare) and len(e.ops) == 1:
+        l, r, op = e.left, e.comparators[0], e.ops[0]
+        if isinstance(l, ast.Constant) and isinstance(l.value, int) and not isinstance(r, ast.Constant):
+            # k < E  ==  E > k
+            flip = {ast.Lt: ast.Gt, ast.LtE: ast.GtE, ast.Gt: ast.Lt, ast.GtE: ast.LtE}
+            if type(op) not in flip:
+                return None
+            l, r, op = r, l, flip[type(op)]()
+        if isinstance(r, ast.Constant) and isinstance(r.value, int) and not isinstance(r.value, bool):
+            if isinstance(op, ast.Gt):
+                return norm(l), r.value + 1, pol
+            if isinstance(op, ast.GtE):
+                return norm(l), r.value, pol
+            if isinstance(op, ast.LtE):
+                return norm(l), r.value + 1, not pol
+            if isinstance(op, ast.Lt):
+                return norm(l), r.value, not pol
+            if isinstance(op, ast.NotEq) and r.value == 0:
+                return norm(l), 1, pol          # for a non-negative count
+        return None
+    if isinstance(e, (ast.Call, ast.Attribute, ast.Name, ast.Subscript)):
+        return norm(e), 1, pol                  # truthiness of a non-negative count
+    return None
+
+
+def r10(ctx: RuleCtx) -> None:
+    import re as _re
+    mod = ctx.repo.module(NB)
+    infos = _infos(ctx)
+    decl: T.Dict[str, T.List[T.Tuple[str, ast.AST, T.Optional[T.Tuple[str, int]]]]] = {}
+    uses: T.Dict[str, T.List[T.Tuple[str, ast.AST, T.Optional[T.Tuple[str, int]]]]] = {}
+
+    def guard(info: L.FnInfo, n: Node) -> T.Optional[T.Tuple[str, int]]:
+        """The innermost threshold test on whose taken edge the node lies (None: unconditional as far as thresholds go)."""
+        cfg = info.cfg
+        best = None
+        for t in cfg.nodes:
+            if t.kind != 'test' or not isinstance(t.ast, ast.If):
+                continue
+            th = _threshold(info, t)
+            if th is None:
+                continue
+            yes = [cfg.nodes[b] for b, lab in cfg.succ[t.id] if lab is th[2]]
+            no = [cfg.nodes[b] for b, lab in cfg.succ[t.id] if lab is (not th[2])]
+            if n.id in cfg.reachable(yes, [t], include_start=True) and n.id not in cfg.reachable(no, [t], include_start=True) and cfg.dominated_by_any(n, [t]):
+                if best is not None and best[0] != th[0]:
+                    raise Undecided(f'{info.qn}: `{short(n.ast, 50)}` is guarded by thresholds on two quantities')
+                best = (th[0], max(th[1], best[1]) if best else th[1])
+        return best
+    for q, f in _backend_funcs(mod).items():
+        txt_consts = [x for x in walk_no_nested(f) if (isinstance(x, ast.Constant) and isinstance(x.value, str) and 'pool' in x.value) or
+                      (isinstance(x, ast.JoinedStr) and any(isinstance(v, ast.Constant) and 'pool' in str(v.value) for v in x.values))]
+        if not txt_consts:
+            continue
+        info = infos.get(q)
+        pm = mod.parent_map()
+        for x in txt_consts:
+            if isinstance(pm.get(x), ast.JoinedStr):
+                continue
+            lit = x.value if isinstance(x, ast.Constant) else ''.join(str(v.value) if isinstance(v, ast.Constant) else '\0' for v in x.values)
+            m_use = _re.fullmatch(r'\s*pool\s*=\s*(\w+)\s*', lit)
+            m_decl = _re.match(r'pool (\w+)\n', lit)
+            if not m_use and not m_decl:
+                continue
+            nodes = info.nodes_of(x)
+            if not nodes:
+                continue
+            g = guard(info, nodes[0])
+            # conditional contexts inside the statement: `X if E > k else Y`
+            child: ast.AST = x
+            par = pm.get(child)
+            while par is not None and not isinstance(par, ast.stmt):
+                if isinstance(par, ast.IfExp) and child is not par.test:
+                    th = _threshold_expr(info, par.test, nodes[0])
+                    if th is None:
+                        raise Undecided(f'{q}: `{short(par, 60)}` selects the pool text by a condition the rule does not read')
+                    taken = (child is par.body) == th[2]
+                    if taken:
+                        if g is not None and g[0] != th[0]:
+                            raise Undecided(f'{q}: `{short(par, 60)}` is guarded by thresholds on two quantities')
+                        g = (th[0], max(th[1], g[1]) if g else th[1])
+                    else:
+                        raise Undecided(f'{q}: `{short(par, 60)}` uses the pool text when a threshold is NOT reached')
+                elif isinstance(par, (ast.BoolOp, ast.comprehension, ast.ListComp, ast.GeneratorExp, ast.SetComp, ast.DictComp, ast.Lambda)):
+                    raise Undecided(f'{q}: `{short(par, 60)}` selects the pool text in a form the rule does not read')
+                child, par = par, pm.get(par)
+            (uses if m_use else decl).setdefault((m_use or m_decl).group(1), []).append((q, x, g))  # type: ignore[union-attr]
+    # add_item('pool', 'console'): ninja's built-in pool
+    builtin = {'console'}
+    nchk = 0
+    for name, us in uses.items():
+        if name in builtin:
+            continue
+        if name not in decl:
+            raise Undecided(f'pool `{name}` is named by a rule, but no text `pool {name}` is written by a method of the backend (declared elsewhere?)')
+        for q, x, gu in us:
+            nchk += 1
+            ok = False
+            why = ''
+            for qd, xd, gd in decl[name]:
+                if gd is None:
+                    ok = True
+                elif gu is None:
+                    why = f'the declaration in {qd} is written only when {gd[0]} >= {gd[1]}, the rule names the pool unconditionally'
+                elif gu[0] != gd[0]:
+                    raise Undecided(f'pool `{name}`: declared under a condition on `{gd[0]}`, named under a condition on `{gu[0]}`')
+                elif gu[1] >= gd[1]:
+                    ok = True
+                else:
+                    why = f'the declaration in {qd} is written only when {gd[0]} >= {gd[1]}, but {q} names the pool already when it is >= {gu[1]}'
+            ctx.require(ok, f'{q}: pool `{name}` is declared whenever a rule names it', mod, q, x if isinstance(x, ast.AST) else name,
+                        f'a rule names `pool = {name}`, but {why}: ninja rejects the manifest with "unknown pool name"', x)
+    if nchk == 0:
+        raise Undecided('no rule of the backend names a pool other than the built-in console pool in a form this rule reads')
+    ctx.floor('rules that name a declared pool', nchk, 1)
+
+
+
 def _resolve_callee(mod: Module, fi: L.FnInfo, c: ast.Call, at: Node) -> T.Optional[T.Tuple[str, ast.Call, bool]]:
     """Repository function a call goes to: a module function, a method of the element class (`self.m`, `Cls.m`), or a local bound to
     functools.partial(f, ...) (the partial's arguments are merged into the call).  -> (qualified name, call with merged arguments, implicit first parameter)"""
@@ -2530,4 +2666,5 @@ RULES = [
     Rule('C04.R7', 'outputs[0] is re-assigned from filename after every write (no stale copy)', r7),
     Rule('C04.R8', 'every separator of the build line is escaped or rejected by the path quoting', r8),
     Rule('C04.R9', 'no isinstance arm for a subclass is shadowed by an earlier base-class arm', r9),
+    Rule('C04.R10', 'a pool named by a rule is declared under an implied condition', r10),
 ]
